@@ -2104,26 +2104,29 @@ class Scheduler:
 
             # Compute final call_hash and record CallNode.
             if job.recording_provenance():
-                error_value = ErrorValue(error, error_traceback or Traceback.from_error(error))
-                try:
-                    error_hash = self.backend.record_value(error_value)
-                except (TypeError, AttributeError):
-                    # Some errors cannot be serialized so record them as generic Exceptions.
-                    error2 = Exception(repr(error))
-                    error_value = ErrorValue(
-                        error2, error_traceback or Traceback.from_error(error2)
+                # A job replaying a recorded failure (collapsed into an equivalent job, or a CSE
+                # hit) already carries the call_hash of that CallNode, just like a successful replay.
+                if not job.call_hash:
+                    error_value = ErrorValue(error, error_traceback or Traceback.from_error(error))
+                    try:
+                        error_hash = self.backend.record_value(error_value)
+                    except (TypeError, AttributeError):
+                        # Some errors cannot be serialized so record them as generic Exceptions.
+                        error2 = Exception(repr(error))
+                        error_value = ErrorValue(
+                            error2, error_traceback or Traceback.from_error(error2)
+                        )
+                        error_hash = self.backend.record_value(error_value)
+                    job.call_hash = self.backend.record_call_node(
+                        task_name=job.task.fullname,
+                        task_hash=job.task.hash,
+                        args_hash=job.args_hash,
+                        expr_args=(job.expr.args, job.expr.kwargs),  # ty: ignore[unresolved-attribute]
+                        eval_args=job.eval_args,
+                        result_hash=error_hash,
+                        child_call_hashes=child_call_hashes,
+                        subtree_tasks=subtree_tasks,
                     )
-                    error_hash = self.backend.record_value(error_value)
-                job.call_hash = self.backend.record_call_node(
-                    task_name=job.task.fullname,
-                    task_hash=job.task.hash,
-                    args_hash=job.args_hash,
-                    expr_args=(job.expr.args, job.expr.kwargs),  # ty: ignore[unresolved-attribute]
-                    eval_args=job.eval_args,
-                    result_hash=error_hash,
-                    child_call_hashes=child_call_hashes,
-                    subtree_tasks=subtree_tasks,
-                )
 
                 # Record CallNode context, if present.
                 context = job.get_context()
